@@ -134,7 +134,24 @@ func (g *dg) val(depth int) string {
 
 func (g *dg) form() string {
 	v := g.val(3)
-	switch g.n(0, 34, "form") {
+	switch g.n(0, 36, "form") {
+	case 35, 36:
+		// a package whose export list names several unbound symbols: which one
+		// use-package complains about, and what it imported before that
+		names := []string{"zeta", "alpha", "mid", "beta", "omega", "delta"}
+		var exp []string
+		for i, n := 0, g.n(2, 5, "nexports"); i < n; i++ {
+			exp = append(exp, "'"+g.pick("expname", names...))
+		}
+		bound := g.pick("boundname", names...)
+		return fmt.Sprintf("(in-package 'plib%d)\n(export %s)\n(set '%s 4)\n(in-package 'user)\n(handler-bind ((condition (lambda (c &rest d) (probe 1 c d)))) (use-package 'plib%d))\n(list %s)",
+			g.n(0, 2, "plib"), strings.Join(exp, " "), bound, g.n(0, 2, "plib2"), strings.Join(func() []string {
+				var o []string
+				for _, n := range names {
+					o = append(o, "(ignore-errors "+n+")")
+				}
+				return o
+			}(), " "))
 	case 33, 34:
 		// written timestamps carry their own offset: arithmetic on them and their
 		// formatting do not consult the host's time zone
